@@ -97,7 +97,9 @@ def run(ctx: Context) -> None:
         detail = f"{len(acks)} acknowledge_received_data call(s) in the body loop" + ("" if ok else ": consumed DATA is never credited back, a large response stalls when the window is used up")
         if ok:
             c = acks[0]
-            a0 = [norm(a) for a in ctx.prov.expand(c.args[0], rb, c, depth=1)] if c.args else []
+            # the amount is the event's own flow-controlled length: either written directly or through one temporary
+            a0 = [norm(c.args[0])] if c.args and norm(c.args[0]) == "event.flow_controlled_length" else \
+                ([norm(a) for a in ctx.prov.expand(c.args[0], rb, c, depth=1)] if c.args else [])
             g = guard_atoms(guards_of(c))
             ok = a0 == ["event.flow_controlled_length"] and [norm(a) for a in c.args[1:]] == ["stream_id"] and "isinstance(event,h2.events.DataReceived)" in g and len(g) == 1
             detail = f"acknowledge_received_data({a0}, {[norm(a) for a in c.args[1:]]}) under {sorted(g)}"
@@ -148,10 +150,17 @@ def _end_stream_agreement(ctx: Context) -> None:
         s2 = h2.methods["_send_request_headers"]
         body = h2.methods["_send_request_body"]
         calls = [c for c in own_nodes(s2.node) if isinstance(c, ast.Call) and norm(c.func) == "self._h2_state.send_headers"]
-        first = next(iter(effective_body(body.node.body)), None)
-        early = norm(first.test) if isinstance(first, ast.If) and len(first.body) == 1 and isinstance(first.body[0], ast.Return) else None
+        from .common import early_return_atom
+        from ..norm import canon_atom
+
+        early = early_return_atom(body.node.body)
         for c in calls:
-            esrc = [norm(a) for k in c.keywords if k.arg == "end_stream" for a in ctx.prov.expand(k.value, s2, c)]
+            def atom_of(e: ast.AST) -> str:
+                pol = True
+                while isinstance(e, ast.UnaryOp) and isinstance(e.op, ast.Not):
+                    e, pol = e.operand, not pol
+                return canon_atom(e, pol)
+            esrc = [atom_of(a) for k in c.keywords if k.arg == "end_stream" for a in ctx.prov.expand(k.value, s2, c)]
             ok = early is not None and esrc == [early]
             rep.ob("C13.R8", fkey(tree, s2, "end-stream-agreement"), ok, where(s2, c),
                    f"END_STREAM on HEADERS <- {esrc}; the body routine returns early on `{early}`" + ("" if ok else
